@@ -162,6 +162,7 @@ type quantizer struct {
 	// not named here is replaced by what it returns (value provenance) or inlined (bool formula). The
 	// functions named here are the anchors the caller's expected shape talks about; they stay opaque.
 	stop     map[string]bool
+	idxProv  bool // describe range induction variables as idx(collection) and slices.Index as indexof(c, x)
 	seeInts  bool // see through in-module helpers for integer-typed results only (matcher algebra)
 	retDepth int
 	p       *Prog
@@ -190,6 +191,13 @@ func (qz *quantizer) prov(v ssa.Value, d int) string {
 	case *ssa.Call:
 		if rp, ok := qz.retProv(t, 0); ok {
 			return rp
+		}
+		if qz.idxProv {
+			if c := t.Call.StaticCallee(); c != nil && len(t.Call.Args) == 2 {
+				if o := c.Origin(); o != nil && o.Pkg != nil && o.Pkg.Pkg.Path() == "slices" && o.Name() == "Index" {
+					return "indexof(" + qz.prov(t.Call.Args[0], d+1) + ", " + qz.prov(t.Call.Args[1], d+1) + ")"
+				}
+			}
 		}
 		var as []string
 		for _, a := range t.Call.Args {
@@ -281,6 +289,11 @@ func (qz *quantizer) prov(v ssa.Value, d int) string {
 		}
 		return "local"
 	case *ssa.BinOp:
+		if qz.idxProv {
+			if coll := rangeCollOf(t); coll != nil {
+				return "idx(" + qz.prov(coll, d+1) + ")"
+			}
+		}
 		return "(" + qz.prov(t.X, d+1) + " " + t.Op.String() + " " + qz.prov(t.Y, d+1) + ")"
 	case *ssa.Phi:
 		return "phi:" + t.Comment
@@ -906,4 +919,33 @@ func literalField(lit, name string) (string, bool) {
 		}
 	}
 	return "", false
+}
+
+// rangeCollOf: idx is the induction variable (phi+1) of a full forward range over a collection; returns
+// that collection, else nil.
+func rangeCollOf(idx *ssa.BinOp) ssa.Value {
+	if idx.Op != token.ADD {
+		return nil
+	}
+	phi, ok := idx.X.(*ssa.Phi)
+	if !ok {
+		return nil
+	}
+	blk := phi.Block()
+	ifi, ok := blk.Instrs[len(blk.Instrs)-1].(*ssa.If)
+	if !ok {
+		return nil
+	}
+	cmp, ok := ifi.Cond.(*ssa.BinOp)
+	if !ok || cmp.X != ssa.Value(idx) {
+		return nil
+	}
+	ln, ok := cmp.Y.(*ssa.Call)
+	if !ok || len(ln.Call.Args) != 1 {
+		return nil
+	}
+	if isRangeIndexOf(idx, ln.Call.Args[0]) != nil {
+		return nil
+	}
+	return ln.Call.Args[0]
 }
